@@ -12,7 +12,7 @@ use vl_model::wire::*;
 
 use crate::c01::{self, closes, style_of};
 
-pub const RULE: &str = "server: every sequence over the 72-symbol alphabet (18 kinds x {none,more,oneway,more+oneway}) that contains a oneway request, \
+pub const RULE: &str = "server: every sequence over the 76-symbol alphabet (19 kinds x {none,more,oneway,more+oneway}) that contains a oneway request, \
 up to the tier's length bound at every pipelining depth (handle()), random longer ones (handle() and a unix \
 socket served by listen()); oracles: reference model (a oneway request gets no reply, later replies stay aligned \
 by token) and a metamorphic twin (the reply bytes equal those of the same stream with the oneway requests \
